@@ -297,6 +297,12 @@ pub fn bin_expect(base: &Base, coltype: u8, unsigned: bool) -> BinExpect {
                 BinExpect::Refuse
             }
         }
+        // (the binary forms carry the year in two bytes: a chrono date of year 70000 or -1 cannot
+        // be sent exactly; years 10000-65535 fit the wire but not MySQL's own DATE range)
+        (Sem::Date(y, ..), _) if coltype == T_DATE && !(0..=65_535).contains(y) => BinExpect::Refuse,
+        (Sem::DateTime(y, ..), _) if (coltype == T_DATETIME || coltype == T_TIMESTAMP) && !(0..=65_535).contains(y) => BinExpect::Refuse,
+        (Sem::Date(y, ..), _) if coltype == T_DATE && *y > 9999 => BinExpect::AcceptOrRefuse(sem),
+        (Sem::DateTime(y, ..), _) if (coltype == T_DATETIME || coltype == T_TIMESTAMP) && *y > 9999 => BinExpect::AcceptOrRefuse(sem),
         (Sem::Date(..), _) => {
             if coltype == T_DATE {
                 BinExpect::Accept(sem)
